@@ -76,6 +76,11 @@ def compare_parsed(bib, text, toks, out, parsed, lib):
     return None
 
 
+class _Tail:
+    def __init__(self, blocks):
+        self.blocks = blocks
+
+
 _G = {}
 
 
@@ -164,7 +169,7 @@ def run(chk: core.Check):
     recs, tlcs = splitobs.evaluate(bib, docs, how="parse0", lib=True)
     for r in tlcs:
         chk.add_tlc(r, "Oracle_Splitter (Parsed) T3", count_states=False)
-    for r in recs:
+    for ri, r in enumerate(recs):
         if r["raised"]:
             continue   # scanner-level differences are the subject of C01-C03 ...
         scanner_differs = bool(r["diff"])
@@ -174,6 +179,15 @@ def run(chk: core.Check):
         except Exception as ex:  # noqa
             report(chk, "raised", f"{type(ex).__name__}: {ex}", r["text"])
             continue
+        if ri % 4 == 1 and not scanner_differs:
+            # the same document parsed INTO a library that already holds an unrelated, already parsed entry: what the
+            # document's own blocks become does not depend on that
+            try:
+                pre = bib.parse_string("@misc{zz-pre, note = {Pre Note 9}, title = \"Q\"}\n")
+                lib = _Tail(bib.parse_string(r["text"], library=pre).blocks[1:])
+            except Exception as ex:  # noqa
+                report(chk, "raised", f"into a parsed library: {type(ex).__name__}: {ex}", r["text"])
+                continue
         try:
             bad = compare_parsed(bib, r["text"], toks, r["out"], r["parsed"], lib)
         except Exception:  # noqa
